@@ -24,6 +24,7 @@ def std(pkg, qprop, tprop, fuzz=None, grid_shards_thorough=1, level="exploration
 
 
 PROPS = {
+    "C20": std("c20", 5000, 50000, extra=dict(engine="rapid (oracle by construction via reflect) + grid")),
     "C18": std("c18", 5000, 50000, extra=dict(engine="rapid stateful (model-based histories with injected faults)")),
     "C16": std("c16", 5000, 50000, fuzz=45),
     "C17": std("c17", 5000, 50000, fuzz=45),
